@@ -29,9 +29,119 @@ def stress_part(ck):
                                     note="not deterministic: re-run `harness stress` with this line"))
 
 
+# ---------------------------------------------------------------- extracted Coq judges on scheduled runs
+# The judges of the concurrent properties defined in Coq (Spec/ConcJudges.v, Spec/Judges.v), proved equivalent to the
+# Props of the theorems and bridged from them (Proofs/ConcJudgeProofs.v, statements pinned in Properties/Tie.v), are
+# extracted into modelrun and asked through `JUDGE <kind> ...`, one statement per run and kind.  A run fails if EITHER the
+# python judge or the Coq judge rejects it; besides, a python restatement of exactly the statement handed to Coq is
+# evaluated and the obligation "python judge = Coq judge" demands the same verdict on every statement.
+# (Shared by c03.py, c08.py and c12.py.)
+
+class CoqJudges:
+    """A modelrun co-process answering JUDGE queries one at a time, plus the tally of verdicts."""
+
+    def __init__(self, what):
+        self.what = what          # kind -> description of the statement (for the obligations' text)
+        self.proc = None
+        self.tally = {k: dict(statements=0, rejected_by_coq=0, rejected_by_python=0, unreadable=0, differ=0) for k in what}
+        self.first_diff = None
+        self.first_reject = {}
+
+    def _ask(self, q):
+        import subprocess
+        if self.proc is None or self.proc.poll() is not None:
+            self.proc = subprocess.Popen([MODELRUN], stdin=subprocess.PIPE, stdout=subprocess.PIPE, text=True, bufsize=1)
+        self.proc.stdin.write("JUDGE " + q + "\n")
+        self.proc.stdin.flush()
+        return self.proc.stdout.readline().rstrip("\n")
+
+    def close(self):
+        if self.proc is not None:
+            try:
+                self.proc.stdin.close()
+                self.proc.wait(timeout=10)
+            except Exception:
+                self.proc.kill()
+            self.proc = None
+
+    def judge(self, kind, query, py, rec, prog):
+        """-> True / False (verdict of the extracted judge) or None (the co-process could not read the statement);
+        [py] is the verdict of the python restatement on the same statement."""
+        a = self._ask(query)
+        t = self.tally[kind]
+        t["statements"] += 1
+        if not py:
+            t["rejected_by_python"] += 1
+        if a not in ("= 1", "= 0"):
+            t["unreadable"] += 1
+            self.first_reject.setdefault(kind, (self._line(rec, prog), rec.get("K"), "unreadable: %s on JUDGE %s" % (a[:200], query[:300])))
+            return None
+        v = (a == "= 1")
+        if not v:
+            t["rejected_by_coq"] += 1
+            self.first_reject.setdefault(kind, (self._line(rec, prog), rec.get("K"), "JUDGE " + query[:400]))
+        if v != bool(py):
+            t["differ"] += 1
+            if self.first_diff is None:
+                self.first_diff = (kind, self._line(rec, prog), rec.get("K"), bool(py), v, query[:600])
+        return v
+
+    @staticmethod
+    def _line(rec, prog):
+        return conc.prog_line(prog["id"], prog["price"], prog["setup"], prog["threads"], rec.get("K") or prog["sched"], prog["flags"])
+
+    def obligations(self, ck):
+        """the extra obligations of a check that consults the extracted judges (call from extra_obligations)"""
+        self.close()
+        ck.extra["coq_judge"] = {k: dict(v) for k, v in self.tally.items()}
+        for k, t in self.tally.items():
+            ck.oblige("extracted Coq judge `JUDGE %s` (%s): accepts each of %d statements taken from implementation runs" % (k, self.what[k], t["statements"]),
+                      t["rejected_by_coq"] == 0 and t["unreadable"] == 0 and t["statements"] > 0,
+                      "%d rejected, %d unreadable" % (t["rejected_by_coq"], t["unreadable"]))
+            ck.oblige("python judge = Coq judge (%s): same verdict on each of %d judged statements" % (self.what[k], t["statements"]),
+                      t["differ"] == 0, "%d differ" % t["differ"])
+        if self.first_diff:
+            kind, line, k, py, v, q = self.first_diff
+            ck.violation("judge_disagree", dict(kind="conc-program", program=line, schedule=k,
+                                                why="python judge says %s, extracted Coq judge says %s on: JUDGE %s" % (py, v, q)))
+
+
+CJ = CoqJudges({"agg": "Agg at quiescence: aggregates = sums over the listed orders, agg_b"})
+
+
+def judge_quiescent_agg(rec, prog, info):
+    """conc.judge_quiescent_agg AND the extracted agg_b (Tie_judge_agg, Tie_judge_quiescent_agg_sound) on the same
+    final state: the three aggregates read at quiescence against the listing read at quiescence."""
+    py = conc.judge_quiescent_agg(rec)
+    if rec["Q"] is None or rec["Q"] == "aborted":
+        return py
+    d = kv(rec["Q"])
+    v = CJ.judge("agg", "agg %s %s %s %s" % (d["cv"], d["ch"], d["cc"], d["vec"]), state_agg_stmt_ok(d), rec, prog)
+    if py:
+        return py
+    if v is None:
+        return "the extracted judge agg_b could not read the final state %s" % rec["Q"][:200]
+    if not v:
+        return "extracted judge agg_b rejects the final state: aggregates (%s,%s,%s) are not the sums over the listing %s" % (
+            d["cv"], d["ch"], d["cc"], d["vec"][:300])
+    return None
+
+
+def state_agg_stmt_ok(d):
+    """python restatement of agg_b (Spec/Judges.v) on a state line"""
+    vec = gen.parse_list(d["vec"])
+    return (int(d["cv"]), int(d["ch"]), int(d["cc"])) == (sum(gen.parse_order(o)["vis"] for o in vec),
+                                                          sum(gen.parse_order(o)["hid"] for o in vec), len(vec))
+
+
+def extra(ck):
+    CJ.obligations(ck)
+    stress_part(ck)
+
+
 def run(tier, seed, replay=None):
     return run_conc_property(
         "C03", tier, seed, replay,
-        judges=[("aggregates at quiescence", lambda rec, prog, info: conc.judge_quiescent_agg(rec)),
+        judges=[("aggregates at quiescence", judge_quiescent_agg),
                 ("per-order conservation", conc.judge_ledger)],
-        n_quick=2500, n_thorough=60000, extra_obligations=stress_part)
+        n_quick=2500, n_thorough=60000, extra_obligations=extra)
